@@ -769,6 +769,15 @@ def run(F, R, config=None):
         from . import c13
         K.borrow_rule(R, lambda sub: c13.r3(F, sub), "C11-R12", "a chain that found a starting point runs: the retry loop leaves with the remembered error cleared, and "
                       "Ok is returned only by a chain that was built and started (C13-R3 analysis)", only_rules={"C13-R3"})
+        # "records exactly num_tune + num_draws draws": what a chain recorded must also leave its buffers - a flush-aware buffer that withholds a
+        # non-empty chunk loses the tail of the run (C15-R5 analysis of the Zarr sample buffer)
+        from . import c15, c16
+        K.borrow_rule(R, lambda sub: c15.r5(F, sub), "C11-R14", "every non-empty sample buffer is handed out when the chain is finalised, independent of earlier flushes "
+                      "(C15-R5 analysis: no state behind `&self`, snapshot = whole buffer)", only_rules={"C15-R5"})
+        # "the progress counters agree with the trace": Progress.diverging and the trace's `diverging` column are both `divergence info is present`
+        K.borrow_rule(R, lambda sub: c16.r4_r5(F, sub, c16.r1_r2_r3(F, sub)), "C11-R15", "the trace's `diverging` flag is set exactly when the draw carries divergence information - the same "
+                      "condition ChainProgress::update counts by - whatever the cause of the divergence (C16-R4 analysis of the DivergenceStats conversion)",
+                      only_rules={"C16-R4"}, only_keys=lambda k: "DivergenceStats" in k)
         # a Resume that can be lost leaves a chain paused for ever: the run never terminates (C12-R6 analysis of the command channel)
         from . import c12
         K.borrow_rule(R, lambda sub: c12.r6(F, sub), "C11-R7", "no control command for a live chain can be dropped: unbounded mpsc channel, `send` (C12-R6 analysis); a lost Resume "
@@ -780,6 +789,6 @@ def run(F, R, config=None):
     R.assume("user callbacks (ProgressCallback) and Model/Math implementations return")
 
 
-FEATURE_RULES = {"C11-R3": "parallel", "C11-R4": "parallel", "C11-R5": "parallel", "C11-R7": "parallel", "C11-R8": "parallel", "C11-R9": "parallel", "C11-R10": "parallel", "C11-R11": "parallel", "C11-R12": "parallel", "C11-R13": "parallel"}
+FEATURE_RULES = {"C11-R3": "parallel", "C11-R4": "parallel", "C11-R5": "parallel", "C11-R7": "parallel", "C11-R8": "parallel", "C11-R9": "parallel", "C11-R10": "parallel", "C11-R11": "parallel", "C11-R12": "parallel", "C11-R13": "parallel", "C11-R14": "parallel", "C11-R15": "parallel"}
 CONFIGS = ["all", "default", "zarr", "ndarray"]
 SELFTEST = True
